@@ -352,7 +352,9 @@ let do_lease id ins outs =
     let l = (match kind with "host" -> lease_lookup_host t k | "addr" -> lease_lookup_addr t k | _ -> lease_lookup_mac t k) in
     let model = enclist l in
     let tag = format ^ "/" ^ kind ^ (if l = [] then "/miss" else if List.length l > 1 then "/multi" else "/hit") in
-    if res = model then verdict "lease" id "ok" tag "" else verdict "lease" id "diff" tag (Printf.sprintf "impl=%s model=%s" res model)
+    (* C18 is functional: the lookup result is determined by the file (exactly the associations it lists, once each);
+       the model's tables are that set, so a different answer fails the property on this very file *)
+    if res = model then verdict "lease" id "ok" tag "" else verdict "lease" id "spec:C18" tag (Printf.sprintf "lookup returned %s, the associations in the file are %s" res model)
   | _ -> verdict "lease" id "diff" "malformed-line" ""
 
 let do_hosts id ins outs =
@@ -366,7 +368,7 @@ let do_hosts id ins outs =
     let l = if kind = "host" then hosts_lookup_host t k else hosts_lookup_addr t k in
     let model = enclist l in
     let tag = "hosts/" ^ kind ^ (if l = [] then "/miss" else if List.length l > 1 then "/multi" else "/hit") in
-    if res = model then verdict "hosts" id "ok" tag "" else verdict "hosts" id "diff" tag (Printf.sprintf "impl=%s model=%s" res model)
+    if res = model then verdict "hosts" id "ok" tag "" else verdict "hosts" id "spec:C18" tag (Printf.sprintf "lookup returned %s, the associations in the file are %s" res model)
   | _ -> verdict "hosts" id "diff" "malformed-line" ""
 
 let do_clist id ins outs =
@@ -410,7 +412,7 @@ let do_mdns id ins outs =
     else if not (views_agree impl_state) then
       verdict "mdns" id "spec:C18" tag "name->address and address->name views of the implementation disagree"
     else if mn = dn && ma = da then verdict "mdns" id "ok" tag ""
-    else verdict "mdns" id "diff" tag (Printf.sprintf "names impl(%s) model(%d) equal=%b; addrs equal=%b; impl addrs=%s model addrs=%s" nn mcount (mn = dn) (ma = da) (short da) (short ma))
+    else verdict "mdns" id "spec:C18" tag (Printf.sprintf "the table is not the one the announcements determine (last announced addresses per name, least recently updated names evicted beyond the cap): names impl(%s) model(%d) equal=%b; addrs equal=%b; impl addrs=%s model addrs=%s" nn mcount (mn = dn) (ma = da) (short da) (short ma))
   | _ -> verdict "mdns" id "diff" "malformed-line" ""
 
 (* ---- engine ttl ----
@@ -474,7 +476,19 @@ let do_ttl id ins outs =
          List.length before = List.length after &&
          List.exists2 (fun (t, ty) (t', _) -> ty <> 41 && not (ttl_ok (z_of_int t) (z_of_int t') a mt)) before after
        | _ -> false) in
-    if specbad then verdict "ttl" id "spec:C07" tag (Printf.sprintf "impl=%s model=%s" is ms)
+    (* the freshness value returned next to the rewritten message: positive only while every answer / authority TTL is *)
+    let minbad =
+      (match full_bytes out with
+       | Some ob when List.length ob = List.length msg && kind = "upd" && List.length ob >= 12 ->
+         let arr = Array.of_list (List.map int_of_z ob) in
+         let anns = (arr.(6) * 256 + arr.(7)) + (arr.(8) * 256 + arr.(9)) in
+         let after = record_ttls arr in
+         let rec firstn k l = if k = 0 then [] else (match l with [] -> [] | x :: r -> x :: firstn (k-1) r) in
+         List.length after >= anns &&
+         not (min_serves_ok (z_of_big minttl) (List.map (fun (t, _) -> z_of_int t) (List.filter (fun (_, ty) -> ty <> 41) (firstn anns after))))
+       | _ -> false) in
+    if minbad then verdict "ttl" id "spec:C07" tag (Printf.sprintf "freshness %s is positive although an answer/authority record of the rewritten message has TTL 0: impl=%s model=%s" minttl is ms)
+    else if specbad then verdict "ttl" id "spec:C07" tag (Printf.sprintf "impl=%s model=%s" is ms)
     else if is = ms then verdict "ttl" id "ok" tag ""
     else verdict "ttl" id "diff" tag (Printf.sprintf "impl=%s model=%s" is ms)
   | _ -> verdict "ttl" id "diff" "malformed-line" ""
@@ -746,8 +760,8 @@ let r_fw = function
   | "ubios" -> Ubios | "firewalla" -> Firewalla | "generic" -> Generic | s -> failwith ("fw " ^ s)
 let r_listens = function L53 -> "L53" | LLoop -> "LLoop" | LLocalhost -> "LLocalhost" | LKeep -> "LKeep"
 let r_view_str v =
-  Printf.sprintf "port0=%b port=%s fwd=[%s] noresolv=%b addmac=%b user=[%s]" v.v_port0 (string_of_bytes v.v_port)
-    (String.concat "," (List.map string_of_bytes v.v_fwd)) v.v_noresolv v.v_addmac
+  Printf.sprintf "port0=%b port=%s fwd=[%s] noresolv=%b addmac=%b unparsable-lines=%b user=[%s]" v.v_port0 (string_of_bytes v.v_port)
+    (String.concat "," (List.map string_of_bytes v.v_fwd)) v.v_noresolv v.v_addmac v.v_junk
     (String.concat "|" (List.map (fun b -> String.escaped (string_of_bytes b)) v.v_user))
 let split3 s =   (* op:err:listens:rest *)
   let i1 = String.index s ':' in let i2 = String.index_from s (i1+1) ':' in let i3 = String.index_from s (i2+1) ':' in
@@ -904,7 +918,15 @@ let do_cfg id ins outs =
      | Some a, Some b, Some c, Some d ->
        (* effective configuration: scalars, listen addresses, and the profile / forwarder chosen for every probe
           (the printed profile/forwarder lists are a representation, not part of the effective configuration) *)
-       let eff e = List.filter (fun (k, _) -> k <> "profiles" && k <> "forwarders") (kv e) in
+       (* the printed lists are compared after the replacement Set performs (an entry with the same condition
+          replaces the earlier one in place): the deprecated -config flag appends without it *)
+       let norm_list v =
+         let cond x = (match String.index_opt x '=' with Some i -> String.sub x 0 i | None -> "") in
+         let items = if v = "" then [] else String.split_on_char ',' v in
+         let acc = List.fold_left (fun acc x ->
+             if List.exists (fun y -> cond y = cond x) acc then List.map (fun y -> if cond y = cond x then x else y) acc else acc @ [x]) [] items in
+         String.concat "," acc in
+       let eff e = List.map (fun (k, v) -> if k = "profiles" || k = "forwarders" then (k, norm_list v) else (k, v)) (kv e) in
        if eff a <> eff b then begin specs := "C17" :: !specs;
          let ka = eff a and kb = eff b in
          List.iter (fun (k, v) -> match List.assoc_opt k kb with Some v' when v' <> v -> problems := Printf.sprintf "%s: saved %s reloaded %s" k v v' :: !problems | _ -> ()) ka end;
